@@ -145,6 +145,98 @@ def run(chk):
                        '%s:%d' % (fi.module.relpath, n.lineno), key='C15-I|%s|%s[%d]|%s' % (fq, n.value.id, k, bctx[:60]))
     chk.floor('constant-index header subscripts', nsub, 5)
 
+    # ---- X: constant-index subscripts of the value text on the datatype path
+    chk.rule('C15-X', 'on the datatype path (utils, factories, the date/time constructors) every constant-index subscript of '
+                      'a text parameter is protected: a length test that forces len > index on every path to it (also as an '
+                      'earlier operand of the same `and`), or an enclosing handler for IndexError')
+    from ..cfg import ENTRY, len_implied
+    nx = 0
+    text_funcs = [fi for fq, fi in sorted(ix.functions.items())
+                  if fi.module.name in ('utils', 'factories') or
+                  (fi.module.name == 'base_datatypes' and fi.cls is not None and fi.cls.name in ('DT', 'TM', 'DTM', 'DateTimeDataType'))]
+    for fi in text_funcs:
+        params = set(fi.params)
+        # locals cut out of a parameter (slices, tuple results of the offset splitter) are text as well
+        changed = True
+        while changed:
+            changed = False
+            for n in own_nodes(fi.node):
+                if isinstance(n, ast.Assign):
+                    srcs = {x.id for x in ast.walk(n.value) if isinstance(x, ast.Name)}
+                    if srcs & params and (isinstance(n.value, ast.Subscript) or
+                                          (isinstance(n.value, ast.Call) and norm(n.value.func) == '_split_offset')):
+                        for t in n.targets:
+                            for x in ast.walk(t):
+                                if isinstance(x, ast.Name) and x.id not in params:
+                                    params.add(x.id)
+                                    changed = True
+        g = None
+        for n in own_nodes(fi.node):
+            if not (isinstance(n, ast.Subscript) and isinstance(n.ctx, ast.Load) and isinstance(n.value, ast.Name) and
+                    n.value.id in params and not isinstance(n.slice, ast.Slice)):
+                continue
+            try:
+                k = ast.literal_eval(n.slice)
+            except Exception:
+                continue
+            if not isinstance(k, int) or isinstance(k, bool):
+                continue
+            nx += 1
+            need = k if k >= 0 else -k - 1
+            var = n.value.id
+            guarded = None
+            p = n
+            while p is not None and p is not fi.node and guarded is None:
+                par = getattr(p, '_parent', None)
+                if isinstance(par, ast.Try) and any(p is b for b in par.body):
+                    for h in par.handlers:
+                        if h.type is None or any(x in norm(h.type) for x in ('IndexError', 'LookupError', 'Exception')):
+                            guarded = 'handler for IndexError'
+                    # strptime(var[1:], <format>) earlier in the same try body: an empty text already raised ValueError
+                    idx = [i for i, b in enumerate(par.body) if b is p][0]
+                    before = list(par.body[:idx]) + [p]
+                    for b in before:
+                        for x in ast.walk(b):
+                            if x is n:
+                                break
+                            if isinstance(x, ast.Call) and norm(x.func).endswith('strptime') and len(x.args) == 2 and \
+                                    norm(x.args[0]) in ('%s[1:]' % var,) and isinstance(x.args[1], ast.Constant) and \
+                                    x.args[1].value and need == 0 and getattr(x, 'lineno', 0) < n.lineno and \
+                                    any(h.type is not None and 'ValueError' in norm(h.type) for h in par.handlers):
+                                guarded = 'strptime(%s[1:], %r) runs first and raises ValueError for an empty text' % (var, x.args[1].value)
+                if isinstance(par, ast.BoolOp) and isinstance(par.op, ast.And) and guarded is None:
+                    idx = [i for i, v_ in enumerate(par.values) if v_ is p]
+                    for v_ in (par.values[:idx[0]] if idx else []):
+                        if len_implied(v_, 'true', var, need):
+                            guarded = 'earlier operand `%s`' % norm(v_)[:40]
+                if isinstance(par, ast.BoolOp) and isinstance(par.op, ast.Or) and guarded is None:
+                    idx = [i for i, v_ in enumerate(par.values) if v_ is p]
+                    for v_ in (par.values[:idx[0]] if idx else []):
+                        if len_implied(v_, 'false', var, need):
+                            guarded = 'earlier operand `%s`' % norm(v_)[:40]
+                p = par
+            if guarded is None:
+                g = g or cfg_of(fi)
+                nid = g.node_for(n)
+
+                def labels_ok(src, dst, lab, g=g, var=var, need=need):
+                    nd = g.nodes[src]
+                    return not (nd.kind == 'test' and len_implied(nd.ast, lab, var, need))
+                reach = g.reach(ENTRY, labels_ok=labels_ok)
+                rebind = any(isinstance(x, ast.Assign) and any(norm(t) == var for t in x.targets) for x in own_nodes(fi.node))
+                if nid is not None and nid not in reach and not (rebind and var in fi.params):
+                    guarded = 'length test on every path'
+            construct = '%s: %s' % (fi.qualname, norm(n))
+            if guarded is not None:
+                chk.ok('C15-X', construct, 'protected by: ' + guarded, '%s:%d' % (fi.module.relpath, n.lineno),
+                       key='C15-X|%s|%s' % (fi.qualname, norm(n)))
+                continue
+            chk.ob('C15-X', construct, False,
+                   '`%s` can be evaluated for a text of %d character(s) or fewer: IndexError is not a ValueError, so it passes the '
+                   'TOLERANT fallback of datatype_factory and leaves parse_message as a crash' % (norm(n), need),
+                   '%s:%d' % (fi.module.relpath, n.lineno), key='C15-X|%s|%s' % (fi.qualname, norm(n)))
+    chk.floor('constant-index subscripts of value text on the datatype path', nx, 4)
+
     # ---- K: structure lookups keyed by names computed from the input are guarded
     chk.rule('C15-K', 'in the parser, every lookup of a structure dictionary (references / message profile) by a name computed from '
                       'the input is guarded (try/except KeyError, `in` test or .get): a position the structure does not define must '
